@@ -96,64 +96,64 @@ CLAIMED = {
                   "correspondence on a malformed stream",
     ),
     'C01': dict(
-        text='Machine-checked (Coq): the builder model equals the fragments dumped from /repo now; every fragment word and every random-body instruction is a legal instruction of the variant (all operands); callee draws and offset choices are never empty. Partial: the whole-image clean-return theorem is stated, not proved; every implementation image of the run is executed on the extracted reference machine with exact region mapping (fetch/illegal/misaligned/unmapped/domain faults monitored).',
+        text="Machine-checked (Coq): for ALL FIVE variants, every accepted configuration, every decision script (seed) and every emitted image, from ImageSem.Init (int.bin++jit.bin at the generation address, arbitrary other registers / data / memory) the reference machine - fetching and decoding the emitted words - runs interpreter loop, trampolines, PIC dispatch and every method with all callees to the caller's return address WITHOUT ANY FAULT (fetch outside code, illegal instruction, misaligned / unmapped / code-writing access, domain, shadow, CFI faults are machine outcomes) in exactly the statically computed number of steps (C01_plain/rimiss/rimifull/fixer_image_from_files, with concrete non-vacuity witnesses). Components: builder model = regenerated fragments, every fragment word / random-body instruction legal for the variant.",
         design='4 C01',
-        note='Trusted: Coq kernel (vm_compute), no axioms; gen_tables.py (fragments and tables dumped from /repo at run time); extraction; Machine.v/Isa.v hand-written reference semantics; Generator.v/Builder.v mirror the Python generators and are tied byte-for-byte by the generator correspondence over decision scripts (ScriptRandom); the whole-image composition (Layer A/B of DESIGN 3.6) is stated as `_statement` and NOT yet proved: the theorems proved are `_partial` component theorems; whole images are judged on the extracted reference machine (a test of the missing clause, not a proof).',
-        technique='Coq proof of component theorems (regenerated fragments by computation, stub execution on the reference machine, generator arithmetic) + byte-exact generator correspondence + judgement of implementation images on the extracted reference machine',
+        note="Trusted: Coq kernel (vm_compute), no axioms (Print Assumptions: closed; coqchk -o: Axioms <none>); gen_tables.py (fragments and tables dumped from /repo at run time); extraction (ExtrOcamlBasic/ExtrOcamlString); Machine.v/Isa.v hand-written reference semantics and ImageSem.Init hand-written entry conditions; Generator.v/Builder.v mirror the Python generators and are tied byte-for-byte by the generator correspondence over decision scripts (ScriptRandom) on every run. The whole-image theorems are about the model's image; side conditions: PIC switch offsets encodable (F6) and < 2047 cases, image < 2 GiB, data register not t1 with trampolines (DESIGN 6.2), RIMI call chains within the emitted shadow stack. Clauses named _partial / _statement in coq/Properties are decided by the judges on implementation images executed on the extracted reference machine (a test, not a proof).",
+        technique='Coq proof: Hoare logic over the generator monad (Layer A invariants for every configuration and decision script), machine-level method contracts by induction on the call depth and whole-image theorems for all five variants (Layer B), non-vacuity witnesses; + byte-exact generator correspondence + judgement of implementation images on the extracted reference machine (incl. ImageSem.count_method / need_method vs decoded image vs executed steps)',
     ),
     'C02': dict(
-        text='Machine-checked (Coq): every prologue/epilogue and trampoline pair of the five variants is frame-symmetric (one allocation, equal release, same (register, slot) pairs, slots inside the frame) by computation on the regenerated fragments; reserved registers are excluded from random destinations; call stubs preserve every register but ra and do not touch memory (all offsets/addresses/states). Partial: whole-run register restoration, frame ownership and the stack bound are judged on the reference machine (final-vs-initial registers with arbitrary initial contents, per-access frame monitor, min sp vs call-graph bound).',
+        text='Machine-checked (Coq): the method contract along the call graph for all five variants (every method of every image, any depth: sp, s0, ra, data register, every non-usable register restored - t3 too for RIMI; memory changes only in the data image and the window [sp - need_method, sp) computed from the call DAG, plus the shadow window for RIMI) and the whole-image theorems (sp, s0-s9, ra restored from the interpreter frame; stack use <= Ntot = 88 (+8) + max need_method). Frame symmetry of every prologue / epilogue / trampoline pair by computation on the regenerated fragments; no method instruction writes the data register.',
         design='4 C02',
-        note='Trusted: Coq kernel (vm_compute), no axioms; gen_tables.py (fragments and tables dumped from /repo at run time); extraction; Machine.v/Isa.v hand-written reference semantics; Generator.v/Builder.v mirror the Python generators and are tied byte-for-byte by the generator correspondence over decision scripts (ScriptRandom); the whole-image composition (Layer A/B of DESIGN 3.6) is stated as `_statement` and NOT yet proved: the theorems proved are `_partial` component theorems; whole images are judged on the extracted reference machine (a test of the missing clause, not a proof).',
-        technique='Coq proof of component theorems (regenerated fragments by computation, stub execution on the reference machine, generator arithmetic) + byte-exact generator correspondence + judgement of implementation images on the extracted reference machine',
+        note="Trusted: Coq kernel (vm_compute), no axioms (Print Assumptions: closed; coqchk -o: Axioms <none>); gen_tables.py (fragments and tables dumped from /repo at run time); extraction (ExtrOcamlBasic/ExtrOcamlString); Machine.v/Isa.v hand-written reference semantics and ImageSem.Init hand-written entry conditions; Generator.v/Builder.v mirror the Python generators and are tied byte-for-byte by the generator correspondence over decision scripts (ScriptRandom) on every run. The whole-image theorems are about the model's image; side conditions: PIC switch offsets encodable (F6) and < 2047 cases, image < 2 GiB, data register not t1 with trampolines (DESIGN 6.2), RIMI call chains within the emitted shadow stack. Clauses named _partial / _statement in coq/Properties are decided by the judges on implementation images executed on the extracted reference machine (a test, not a proof).",
+        technique='Coq proof: Hoare logic over the generator monad (Layer A invariants for every configuration and decision script), machine-level method contracts by induction on the call depth and whole-image theorems for all five variants (Layer B), non-vacuity witnesses; + byte-exact generator correspondence + judgement of implementation images on the extracted reference machine (incl. ImageSem.count_method / need_method vs decoded image vs executed steps)',
     ),
     'C03': dict(
-        text='Machine-checked (Coq): for ALL data sizes >= 8, draws and widths the offset is non-negative, aligned, fits the immediate and the access ends inside the rounded data image (bound tight); the alignment looked up from the regenerated ALIGNMENT/name lists is the access width; the data register is never a random destination; the shadow pointer moves only in matched 8-byte steps. Partial: lifting to every body of every image is stated; every memory instruction of every implementation image is checked statically (spec decoder) and dynamically (exact data region).',
+        text='Machine-checked (Coq): every load / store of every method instruction of every image goes through the data register with a non-negative, aligned, in-bounds offset or through sp / t3, and no instruction writes the data register (Layer A, all configurations and scripts); bodies execute on the machine with only the data image changing; in the whole-image theorems a store into code or an access outside data / stack / shadow regions is a machine fault and none occurs; t3 moves only in matched 8-byte steps (RIMI contracts). Data size arithmetic for all sizes >= 8.',
         design='4 C03',
-        note='Trusted: Coq kernel (vm_compute), no axioms; gen_tables.py (fragments and tables dumped from /repo at run time); extraction; Machine.v/Isa.v hand-written reference semantics; Generator.v/Builder.v mirror the Python generators and are tied byte-for-byte by the generator correspondence over decision scripts (ScriptRandom); the whole-image composition (Layer A/B of DESIGN 3.6) is stated as `_statement` and NOT yet proved: the theorems proved are `_partial` component theorems; whole images are judged on the extracted reference machine (a test of the missing clause, not a proof).',
-        technique='Coq proof of component theorems (regenerated fragments by computation, stub execution on the reference machine, generator arithmetic) + byte-exact generator correspondence + judgement of implementation images on the extracted reference machine',
+        note="Trusted: Coq kernel (vm_compute), no axioms (Print Assumptions: closed; coqchk -o: Axioms <none>); gen_tables.py (fragments and tables dumped from /repo at run time); extraction (ExtrOcamlBasic/ExtrOcamlString); Machine.v/Isa.v hand-written reference semantics and ImageSem.Init hand-written entry conditions; Generator.v/Builder.v mirror the Python generators and are tied byte-for-byte by the generator correspondence over decision scripts (ScriptRandom) on every run. The whole-image theorems are about the model's image; side conditions: PIC switch offsets encodable (F6) and < 2047 cases, image < 2 GiB, data register not t1 with trampolines (DESIGN 6.2), RIMI call chains within the emitted shadow stack. Clauses named _partial / _statement in coq/Properties are decided by the judges on implementation images executed on the extracted reference machine (a test, not a proof).",
+        technique='Coq proof: Hoare logic over the generator monad (Layer A invariants for every configuration and decision script), machine-level method contracts by induction on the call depth and whole-image theorems for all five variants (Layer B), non-vacuity witnesses; + byte-exact generator correspondence + judgement of implementation images on the extracted reference machine (incl. ImageSem.count_method / need_method vs decoded image vs executed steps)',
     ),
     'C04': dict(
-        text='Machine-checked (Coq): fragment lengths equal the sizes Method.__init__/the generators assume; call-stub slots are pairwise disjoint and inside the body (all sizes); the patch population has body//call_size slots; call stubs and switch jumps land exactly on pc+offset. Partial: the tiling theorem over whole images is stated; tiling, true addresses, call/switch/trampoline targets, padding length and refusal-without-files are judged on every implementation image.',
+        text='Machine-checked (Coq, Layer A, every configuration and script): jit.bin is trampolines ++ elements, gap-free, every recorded address = byte position; int.bin padded to exactly jit_start - int_start, generation fails instead of emitting files when the interpreter loop does not fit; every callee owns a slot inside the body, slots pairwise >= call_size apart, the slot holds exactly the stub for callee.address - slot address; stubs and switch jumps executed on the machine land on the recorded entries. Loader lemmas (Loader*.v) use these to derive the loaded structured image from the flat files.',
         design='4 C04',
-        note='Trusted: Coq kernel (vm_compute), no axioms; gen_tables.py (fragments and tables dumped from /repo at run time); extraction; Machine.v/Isa.v hand-written reference semantics; Generator.v/Builder.v mirror the Python generators and are tied byte-for-byte by the generator correspondence over decision scripts (ScriptRandom); the whole-image composition (Layer A/B of DESIGN 3.6) is stated as `_statement` and NOT yet proved: the theorems proved are `_partial` component theorems; whole images are judged on the extracted reference machine (a test of the missing clause, not a proof).',
-        technique='Coq proof of component theorems (regenerated fragments by computation, stub execution on the reference machine, generator arithmetic) + byte-exact generator correspondence + judgement of implementation images on the extracted reference machine',
+        note="Trusted: Coq kernel (vm_compute), no axioms (Print Assumptions: closed; coqchk -o: Axioms <none>); gen_tables.py (fragments and tables dumped from /repo at run time); extraction (ExtrOcamlBasic/ExtrOcamlString); Machine.v/Isa.v hand-written reference semantics and ImageSem.Init hand-written entry conditions; Generator.v/Builder.v mirror the Python generators and are tied byte-for-byte by the generator correspondence over decision scripts (ScriptRandom) on every run. The whole-image theorems are about the model's image; side conditions: PIC switch offsets encodable (F6) and < 2047 cases, image < 2 GiB, data register not t1 with trampolines (DESIGN 6.2), RIMI call chains within the emitted shadow stack. Clauses named _partial / _statement in coq/Properties are decided by the judges on implementation images executed on the extracted reference machine (a test, not a proof).",
+        technique='Coq proof: Hoare logic over the generator monad (Layer A invariants for every configuration and decision script), machine-level method contracts by induction on the call depth and whole-image theorems for all five variants (Layer B), non-vacuity witnesses; + byte-exact generator correspondence + judgement of implementation images on the extracted reference machine (incl. ImageSem.count_method / need_method vs decoded image vs executed steps)',
     ),
     'C05': dict(
-        text="Machine-checked (Coq): a switch case jumps to its method iff the hit register holds its number and otherwise falls to the next case, for ALL admissible register pairs and states; PIC call stubs load exactly the drawn hit case into the PIC's own register; the case count is capped by the remaining methods. Partial: method count / call-site counts / each-element-once are judged statically and on the reference machine's entry trace (including non-default PIC registers and first/last hit cases forced).",
+        text='Machine-checked (Coq): exactly jit_nb_methods methods, depth-0 methods have no callee, deeper ones exactly call_number; the interpreter loop is prologue ++ one stub per element over a permutation ++ epilogue; PIC dispatch reaches exactly the case whose number the call site loaded, never the trailing ret, for all admissible register pairs; the whole-image theorems (all five variants) execute every element exactly once, each PIC call exactly one case method (elem_cost), through the trampolines when enabled.',
         design='4 C05',
-        note='Trusted: Coq kernel (vm_compute), no axioms; gen_tables.py (fragments and tables dumped from /repo at run time); extraction; Machine.v/Isa.v hand-written reference semantics; Generator.v/Builder.v mirror the Python generators and are tied byte-for-byte by the generator correspondence over decision scripts (ScriptRandom); the whole-image composition (Layer A/B of DESIGN 3.6) is stated as `_statement` and NOT yet proved: the theorems proved are `_partial` component theorems; whole images are judged on the extracted reference machine (a test of the missing clause, not a proof).',
-        technique='Coq proof of component theorems (regenerated fragments by computation, stub execution on the reference machine, generator arithmetic) + byte-exact generator correspondence + judgement of implementation images on the extracted reference machine',
+        note="Trusted: Coq kernel (vm_compute), no axioms (Print Assumptions: closed; coqchk -o: Axioms <none>); gen_tables.py (fragments and tables dumped from /repo at run time); extraction (ExtrOcamlBasic/ExtrOcamlString); Machine.v/Isa.v hand-written reference semantics and ImageSem.Init hand-written entry conditions; Generator.v/Builder.v mirror the Python generators and are tied byte-for-byte by the generator correspondence over decision scripts (ScriptRandom) on every run. The whole-image theorems are about the model's image; side conditions: PIC switch offsets encodable (F6) and < 2047 cases, image < 2 GiB, data register not t1 with trampolines (DESIGN 6.2), RIMI call chains within the emitted shadow stack. Clauses named _partial / _statement in coq/Properties are decided by the judges on implementation images executed on the extracted reference machine (a test, not a proof).",
+        technique='Coq proof: Hoare logic over the generator monad (Layer A invariants for every configuration and decision script), machine-level method contracts by induction on the call depth and whole-image theorems for all five variants (Layer B), non-vacuity witnesses; + byte-exact generator correspondence + judgement of implementation images on the extracted reference machine (incl. ImageSem.count_method / need_method vs decoded image vs executed steps)',
     ),
     'C06': dict(
-        text='Machine-checked (Coq): callees are drawn only from buckets of strictly smaller depth whenever the depth dictionary is consistent, and registration preserves consistency (all histories); switch compare-branches and jumps go forward. Partial: acyclicity over whole images and count equality are judged (call graph recovered from bytes; executed instruction count == static count from the call DAG and selected PIC cases).',
+        text='Machine-checked (Coq): callees have strictly smaller depth, the call graph is acyclic, every direct jump / branch of every method goes to pc+4 / pc+8 (Layer A); the number of executed instructions is finite and EQUALS image_steps = 12 + sum over elements of elem_cost + 13 computed from the call DAG and the selected PIC cases, for all five variants (C06_executed_count_*), with steps_method = ImageSem.count_method.',
         design='4 C06',
-        note='Trusted: Coq kernel (vm_compute), no axioms; gen_tables.py (fragments and tables dumped from /repo at run time); extraction; Machine.v/Isa.v hand-written reference semantics; Generator.v/Builder.v mirror the Python generators and are tied byte-for-byte by the generator correspondence over decision scripts (ScriptRandom); the whole-image composition (Layer A/B of DESIGN 3.6) is stated as `_statement` and NOT yet proved: the theorems proved are `_partial` component theorems; whole images are judged on the extracted reference machine (a test of the missing clause, not a proof).',
-        technique='Coq proof of component theorems (regenerated fragments by computation, stub execution on the reference machine, generator arithmetic) + byte-exact generator correspondence + judgement of implementation images on the extracted reference machine',
+        note="Trusted: Coq kernel (vm_compute), no axioms (Print Assumptions: closed; coqchk -o: Axioms <none>); gen_tables.py (fragments and tables dumped from /repo at run time); extraction (ExtrOcamlBasic/ExtrOcamlString); Machine.v/Isa.v hand-written reference semantics and ImageSem.Init hand-written entry conditions; Generator.v/Builder.v mirror the Python generators and are tied byte-for-byte by the generator correspondence over decision scripts (ScriptRandom) on every run. The whole-image theorems are about the model's image; side conditions: PIC switch offsets encodable (F6) and < 2047 cases, image < 2 GiB, data register not t1 with trampolines (DESIGN 6.2), RIMI call chains within the emitted shadow stack. Clauses named _partial / _statement in coq/Properties are decided by the judges on implementation images executed on the extracted reference machine (a test, not a proof).",
+        technique='Coq proof: Hoare logic over the generator monad (Layer A invariants for every configuration and decision script), machine-level method contracts by induction on the call depth and whole-image theorems for all five variants (Layer B), non-vacuity witnesses; + byte-exact generator correspondence + judgement of implementation images on the extracted reference machine (incl. ImageSem.count_method / need_method vs decoded image vs executed steps)',
     ),
     'C07': dict(
-        text='Machine-checked (Coq): every call / address stub is position independent - its theorem quantifies over the address A and the whole register file; fragments address memory through sp / the shadow pointer only. Partial: whole-image relocation invariance is judged by twin runs of the reference machine at two random layouts (fetched offsets and data offset/width sequences compared).',
+        text='Machine-checked (Coq): the generator is translation-equivariant - for every accepted configuration, decision script and multiple d of 4, generating at start addresses shifted by d emits exactly the same words in all four files and shifts every recorded address by d (relational Hoare logic over the generator monad): no generated instruction materialises an absolute address; hence for all five variants the same files run at any 4-aligned load address in exactly the same number of steps to the halt address. Partial: equality of the executed instruction sequence / data-offset sequence between two layouts is judged by twin runs on the reference machine.',
         design='4 C07',
-        note='Trusted: Coq kernel (vm_compute), no axioms; gen_tables.py (fragments and tables dumped from /repo at run time); extraction; Machine.v/Isa.v hand-written reference semantics; Generator.v/Builder.v mirror the Python generators and are tied byte-for-byte by the generator correspondence over decision scripts (ScriptRandom); the whole-image composition (Layer A/B of DESIGN 3.6) is stated as `_statement` and NOT yet proved: the theorems proved are `_partial` component theorems; whole images are judged on the extracted reference machine (a test of the missing clause, not a proof).',
-        technique='Coq proof of component theorems (regenerated fragments by computation, stub execution on the reference machine, generator arithmetic) + byte-exact generator correspondence + judgement of implementation images on the extracted reference machine',
+        note="Trusted: Coq kernel (vm_compute), no axioms (Print Assumptions: closed; coqchk -o: Axioms <none>); gen_tables.py (fragments and tables dumped from /repo at run time); extraction (ExtrOcamlBasic/ExtrOcamlString); Machine.v/Isa.v hand-written reference semantics and ImageSem.Init hand-written entry conditions; Generator.v/Builder.v mirror the Python generators and are tied byte-for-byte by the generator correspondence over decision scripts (ScriptRandom) on every run. The whole-image theorems are about the model's image; side conditions: PIC switch offsets encodable (F6) and < 2047 cases, image < 2 GiB, data register not t1 with trampolines (DESIGN 6.2), RIMI call chains within the emitted shadow stack. Clauses named _partial / _statement in coq/Properties are decided by the judges on implementation images executed on the extracted reference machine (a test, not a proof).",
+        technique='Coq proof: Hoare logic over the generator monad (Layer A invariants for every configuration and decision script), machine-level method contracts by induction on the call depth and whole-image theorems for all five variants (Layer B), non-vacuity witnesses; + byte-exact generator correspondence + judgement of implementation images on the extracted reference machine (incl. ImageSem.count_method / need_method vs decoded image vs executed steps)',
     ),
     'C09': dict(
-        text='Machine-checked (Coq): in both RIMI variants prologues/epilogues (and RIMI-full trampolines) never put ra on the main stack, push/pop it through the shadow pointer which moves only in matched 8-byte steps; ra and the shadow pointer are not random destinations; call stubs do not read memory. Partial: LIFO matching, capacity and corruption independence are judged on the reference machine (shadow monitor; random overwrites of all JIT frames every few steps with trace comparison).',
+        text='Machine-checked (Coq): no method instruction of a RIMI image stores or reloads ra through sp; the RIMI method contract (both variants): pushes / pops through t3 LIFO-matched, one slot per live call-making method, inside [t3 - ss_need, t3) from the call DAG, t3 restored; whole image (RIMI-SS and RIMI-full, over the emitted files): for call chains within the emitted shadow stack the run ends with t3 at its entry value, no shadow fault; the return of a call-making method goes to the content of its shadow slot whatever the main stack holds (every state). Partial: corruption independence as a two-run statement is judged (random overwrites of JIT frames with trace comparison).',
         design='4 C09',
-        note='Trusted: Coq kernel (vm_compute), no axioms; gen_tables.py (fragments and tables dumped from /repo at run time); extraction; Machine.v/Isa.v hand-written reference semantics; Generator.v/Builder.v mirror the Python generators and are tied byte-for-byte by the generator correspondence over decision scripts (ScriptRandom); the whole-image composition (Layer A/B of DESIGN 3.6) is stated as `_statement` and NOT yet proved: the theorems proved are `_partial` component theorems; whole images are judged on the extracted reference machine (a test of the missing clause, not a proof).',
-        technique='Coq proof of component theorems (regenerated fragments by computation, stub execution on the reference machine, generator arithmetic) + byte-exact generator correspondence + judgement of implementation images on the extracted reference machine',
+        note="Trusted: Coq kernel (vm_compute), no axioms (Print Assumptions: closed; coqchk -o: Axioms <none>); gen_tables.py (fragments and tables dumped from /repo at run time); extraction (ExtrOcamlBasic/ExtrOcamlString); Machine.v/Isa.v hand-written reference semantics and ImageSem.Init hand-written entry conditions; Generator.v/Builder.v mirror the Python generators and are tied byte-for-byte by the generator correspondence over decision scripts (ScriptRandom) on every run. The whole-image theorems are about the model's image; side conditions: PIC switch offsets encodable (F6) and < 2047 cases, image < 2 GiB, data register not t1 with trampolines (DESIGN 6.2), RIMI call chains within the emitted shadow stack. Clauses named _partial / _statement in coq/Properties are decided by the judges on implementation images executed on the extracted reference machine (a test, not a proof).",
+        technique='Coq proof: Hoare logic over the generator monad (Layer A invariants for every configuration and decision script), machine-level method contracts by induction on the call depth and whole-image theorems for all five variants (Layer B), non-vacuity witnesses; + byte-exact generator correspondence + judgement of implementation images on the extracted reference machine (incl. ImageSem.count_method / need_method vs decoded image vs executed steps)',
     ),
     'C10': dict(
-        text="Machine-checked (Coq): interpreter prologue/epilogue contain no custom instruction; retdom is the last and only domain instruction of the return trampoline; interpreter call stubs ending in chdom, executed in domain 0, enter domain 1 exactly at the call trampoline (all offsets/addresses/states). Partial: alternation and duplicated-access discipline over whole runs are judged by the reference machine's domain monitor and a static scan of int.bin/jit.bin.",
+        text="Machine-checked (Coq): whole image of RIMI full over the emitted files: the machine's monitors are exactly C10's discipline (fetch domain, chdom only from domain 0 into the JIT region, retdom only from domain 1 to the interpreter region, duplicated accesses only in domain 1 inside the data section, no base access to the data section) and the run - interpreter in domain 0, chdom stub -> call trampoline -> element -> retdom, strictly alternating - ends at the halt address without any fault, in domain 0. Fragment-level facts by computation on the regenerated fragments.",
         design='4 C10',
-        note='Trusted: Coq kernel (vm_compute), no axioms; gen_tables.py (fragments and tables dumped from /repo at run time); extraction; Machine.v/Isa.v hand-written reference semantics; Generator.v/Builder.v mirror the Python generators and are tied byte-for-byte by the generator correspondence over decision scripts (ScriptRandom); the whole-image composition (Layer A/B of DESIGN 3.6) is stated as `_statement` and NOT yet proved: the theorems proved are `_partial` component theorems; whole images are judged on the extracted reference machine (a test of the missing clause, not a proof).',
-        technique='Coq proof of component theorems (regenerated fragments by computation, stub execution on the reference machine, generator arithmetic) + byte-exact generator correspondence + judgement of implementation images on the extracted reference machine',
+        note="Trusted: Coq kernel (vm_compute), no axioms (Print Assumptions: closed; coqchk -o: Axioms <none>); gen_tables.py (fragments and tables dumped from /repo at run time); extraction (ExtrOcamlBasic/ExtrOcamlString); Machine.v/Isa.v hand-written reference semantics and ImageSem.Init hand-written entry conditions; Generator.v/Builder.v mirror the Python generators and are tied byte-for-byte by the generator correspondence over decision scripts (ScriptRandom) on every run. The whole-image theorems are about the model's image; side conditions: PIC switch offsets encodable (F6) and < 2047 cases, image < 2 GiB, data register not t1 with trampolines (DESIGN 6.2), RIMI call chains within the emitted shadow stack. Clauses named _partial / _statement in coq/Properties are decided by the judges on implementation images executed on the extracted reference machine (a test, not a proof).",
+        technique='Coq proof: Hoare logic over the generator monad (Layer A invariants for every configuration and decision script), machine-level method contracts by induction on the call depth and whole-image theorems for all five variants (Layer B), non-vacuity witnesses; + byte-exact generator correspondence + judgement of implementation images on the extracted reference machine (incl. ImageSem.count_method / need_method vs decoded image vs executed steps)',
     ),
     'C11': dict(
-        text='Machine-checked (Coq): every FIXER epilogue ends with cfiret/beq/ecall/ret; a tagged call registers EXACTLY the return address the following jalr writes (method and PIC stubs, all offsets/addresses/states); the call trampoline tags before jumping. Partial: untampered runs (trap never reached, CFI stack empty at exit) and tamper runs (overwrite of a live saved-ra slot traps) are judged on the reference machine.',
+        text='Machine-checked (Coq): FIXER method contract (every method entered with its return address on top of the CFI stack returns through the check sequence, which passes; every call is the tagged stub registering exactly the ra of that call; LIFO along the call DAG) and whole image over the emitted files - the untampered run never reaches the trap and ends with the CFI stack empty; a forged saved-ra (any state, any moment before the epilogue) makes the checked return Trap at the ecall before any transfer to the forged address (per-return theorem). Partial: the tamper clause over whole runs is judged (overwrites of live saved-ra slots).',
         design='4 C11',
-        note='Trusted: Coq kernel (vm_compute), no axioms; gen_tables.py (fragments and tables dumped from /repo at run time); extraction; Machine.v/Isa.v hand-written reference semantics; Generator.v/Builder.v mirror the Python generators and are tied byte-for-byte by the generator correspondence over decision scripts (ScriptRandom); the whole-image composition (Layer A/B of DESIGN 3.6) is stated as `_statement` and NOT yet proved: the theorems proved are `_partial` component theorems; whole images are judged on the extracted reference machine (a test of the missing clause, not a proof).',
-        technique='Coq proof of component theorems (regenerated fragments by computation, stub execution on the reference machine, generator arithmetic) + byte-exact generator correspondence + judgement of implementation images on the extracted reference machine',
+        note="Trusted: Coq kernel (vm_compute), no axioms (Print Assumptions: closed; coqchk -o: Axioms <none>); gen_tables.py (fragments and tables dumped from /repo at run time); extraction (ExtrOcamlBasic/ExtrOcamlString); Machine.v/Isa.v hand-written reference semantics and ImageSem.Init hand-written entry conditions; Generator.v/Builder.v mirror the Python generators and are tied byte-for-byte by the generator correspondence over decision scripts (ScriptRandom) on every run. The whole-image theorems are about the model's image; side conditions: PIC switch offsets encodable (F6) and < 2047 cases, image < 2 GiB, data register not t1 with trampolines (DESIGN 6.2), RIMI call chains within the emitted shadow stack. Clauses named _partial / _statement in coq/Properties are decided by the judges on implementation images executed on the extracted reference machine (a test, not a proof).",
+        technique='Coq proof: Hoare logic over the generator monad (Layer A invariants for every configuration and decision script), machine-level method contracts by induction on the call depth and whole-image theorems for all five variants (Layer B), non-vacuity witnesses; + byte-exact generator correspondence + judgement of implementation images on the extracted reference machine (incl. ImageSem.count_method / need_method vs decoded image vs executed steps)',
     ),
     'C08': dict(
         text='Machine-checked (Coq, for every seed->stream map and global state): constructing a generator is pure, a generation leaves module-level state unchanged, the three front-ends yield the same files, and files do not depend on the history of earlier generations. PARTIAL by nature: cross-process determinism of random.seed and absence of other entropy sources are runtime facts exercised by the front-ends slice (fresh processes, python -m gigue subprocesses, three hash seeds, histories incl. failing generations, deep snapshot of module-level state) and by script accounting.',
